@@ -304,8 +304,70 @@ def _np_count_nonzero(eng, args, kwargs):
     return npmodels._np_count_nonzero(eng, args, kwargs)
 
 
+# ---------------------------------------------------------------------------------------------------------------
+def _np_fromiter(eng, args, kwargs):
+    """np.fromiter(iterable, dtype): a NEW 1-D array holding the items of the iterable in iteration order (a set: its ghost
+    enumeration, every member once, order unconstrained)"""
+    from .npmodels import kind_of_dtype
+
+    if len(args) > 2 or set(kwargs) - {"dtype"}:
+        raise Unsupported("np.fromiter with count / like")
+    src = args[0]
+    dt = kwargs.get("dtype", args[1] if len(args) > 1 else None)
+    k = kind_of_dtype(dt)
+    used(eng, "np.fromiter(iterable, dtype) is a new 1-D array of the iterable's items in iteration order")
+    if isinstance(src, SymSet):
+        ks, m, pos, _ = src.enumeration(eng)
+        j = z3.Int(fresh_name("fi"))
+        arr, n, sk = z3.Lambda([j], ks(j)), m, "int"
+    elif isinstance(src, SArr):
+        arr, n, sk = src.arr, src.n, src.kind
+    elif isinstance(src, PList) and src.items is None and not src.tup:
+        arr, n, sk = src.cols[0], src.n, src.kinds[0]
+    elif isinstance(src, (PList, NArr)) and src.items is not None and all(kind_of(x) is not None for x in src.items) and (not isinstance(src, NArr) or src.ndim == 1):
+        from . import narr
+
+        kinds = {kind_of(x) for x in src.items}
+        if k == "int" and "real" in kinds:
+            raise Unsupported("np.fromiter narrowing reals to ints")
+        return narr.from_list([Sym(to_z3(x, k), k) if isinstance(x, Sym) and kind_of(x) != k else x for x in src.items], k, dt)
+    else:
+        raise Unsupported(f"np.fromiter of {type(src).__name__}")
+    if sk == k or (sk == "bool" and k == "int"):
+        if sk != k:
+            j = z3.Int(fresh_name("fi"))
+            arr = z3.Lambda([j], z3.If(z3.Select(arr, j), 1, 0))
+        return SArr(arr, n, k, name="fromiter", dtype=dt)
+    if sk == "int" and k == "real":
+        j = z3.Int(fresh_name("fi"))
+        return SArr(z3.Lambda([j], z3.ToReal(z3.Select(arr, j))), n, "real", name="fromiter", dtype=dt)
+    raise Unsupported("np.fromiter narrowing")
+
+
+_prev_ones = [None]
+
+
+def _np_ones(eng, args, kwargs):
+    """np.ones(n[, dtype]) with a symbolic 1-D length n: n ones (the constant-array model of pyvc/ext_C10.py, as np.zeros / np.full)"""
+    from . import ext_C10, narr
+
+    n = ext_C10._dim(args[0] if args else kwargs.get("shape"))
+    if n is None:
+        return (_prev_ones[0] or narr.np_ones)(eng, args, kwargs)
+    used(eng, "np.ones(n): n ones (n symbolic)")
+    return ext_C10._const_array(eng, n, 1, kwargs.get("dtype", args[1] if len(args) > 1 else None), "ones")
+
+
 def install():
     import numpy as np
+
+    from . import ext_C01
+
+    ext_C01.install()  # np.zeros / np.full / np.concatenate with a symbolic 1-D length (additive: concrete shapes go to the stock models)
+    if models.EXTRA_MODELS.get(np.ones) is not _np_ones:
+        _prev_ones[0] = models.EXTRA_MODELS.get(np.ones)
+        models.EXTRA_MODELS[np.ones] = _np_ones
+    models.EXTRA_MODELS[np.fromiter] = _np_fromiter
 
     models.EXTRA_MODELS[set] = _b_set
     models.EXTRA_MODELS[any] = _b_any
